@@ -89,6 +89,53 @@ class C05(Property):
                     s.add("P.1.%s" % nu.ipv4_packet(nu.node_ip(1), nu.node_ip(2), b"\x11"), "A", "O.2")
                     s.add("P.2.%s" % nu.ipv4_packet(nu.node_ip(2), nu.node_ip(1), b"\x22"), "A", "O.1")
                     out.append(s.line())
+        # a SECOND handshake with an address one side still holds as a peer: (i) a node restarts on the same address (fresh state and
+        # node id) and the connection is set up again, inside and after the 60 s in which the old initiator keeps its handshake state;
+        # (ii) a one-sided time-out: with a short peer timeout one node is mute long enough for the other to drop it while it keeps
+        # the other.  Afterwards delivery is reliable; both must end up connected with payload flowing both ways.
+        for after in ([5, 30, 59, 70, 130, 250] if thorough else [5, 70, 250]):
+            for who in (1, 2):
+                for redial in ("restarted", "other", "both"):
+                    if not thorough and rng.random() < 0.4:
+                        continue
+                    s = nu.Scenario()
+                    s.node(1, mode="tun-router", claims=["0a000100/24"])
+                    s.node(2, mode="tun-router", claims=["0a000200/24"])
+                    s.add("R.1.2", "C.1.2", "A")
+                    s.tick(after)
+                    s.node(who, mode="tun-router", claims=["%s/24" % bytes([10, 0, who, 0]).hex()])     # restart
+                    o = 3 - who
+                    if redial in ("restarted", "both"):
+                        s.add("R.%d.%d" % (who, o), "C.%d.%d" % (who, o))
+                    if redial in ("other", "both"):
+                        s.add("C.%d.%d" % (o, who))
+                    s.add("A")
+                    for _ in range(300 + 120 + 30):
+                        s.t += 1
+                        s.add("T.%d" % s.t, "H.1", "H.2", "A")
+                    s.add("S.1", "S.2")
+                    s.add("P.1.%s" % nu.ipv4_packet(nu.node_ip(1), nu.node_ip(2), b"\x11"), "A", "O.2")
+                    s.add("P.2.%s" % nu.ipv4_packet(nu.node_ip(2), nu.node_ip(1), b"\x22"), "A", "O.1")
+                    out.append(s.line())
+        for pt in ([10, 20, 40] if thorough else [20]):
+            for who in (1, 2):
+                s = nu.Scenario()
+                s.node(1, mode="tun-router", pt=pt, claims=["0a000100/24"])
+                s.node(2, mode="tun-router", pt=pt, claims=["0a000200/24"])
+                s.add("R.1.2", "R.2.1", "C.1.2", "A")
+                s.tick(70)
+                s.add("M.%d.1" % who)                       # `who` is mute: the other drops it, `who` keeps hearing the other
+                for _ in range(pt + 8):
+                    s.t += 1
+                    s.add("T.%d" % s.t, "H.1", "H.2", "A")
+                s.add("M.%d.0" % who)
+                for _ in range(pt + 120 + 30):
+                    s.t += 1
+                    s.add("T.%d" % s.t, "H.1", "H.2", "A")
+                s.add("S.1", "S.2")
+                s.add("P.1.%s" % nu.ipv4_packet(nu.node_ip(1), nu.node_ip(2), b"\x11"), "A", "O.2")
+                s.add("P.2.%s" % nu.ipv4_packet(nu.node_ip(2), nu.node_ip(1), b"\x22"), "A", "O.1")
+                out.append(s.line())
         return out
 
     def model_line(self, line, impl_out):
